@@ -7,14 +7,14 @@ from vlib import engine, gen, kal, oracle
 
 ID = "C12"
 RULE = ("Inputs of 2..99 sequences (related family or unrelated) in which one or more members are repeated (multiplicity 2..6, "
-        "copies inserted at drawn positions), all types and thread counts (type default penalties: the property does not quantify over user penalties), array and file API. Premise checked per case by an "
+        "copies inserted at drawn positions; plus a boundary class: a 540..700-residue sequence, duplicated, with two shorter sequences constructed to lie at reduced-alphabet semi-global distance exactly 255/256/257 from it), all types and thread counts (type default penalties: the property does not quantify over user penalties), array and file API. Premise checked per case by an "
         "independent Sellers semi-global edit distance in python: for each duplicated sequence d and every other distinct "
         "sequence t, distance(longer as text, shorter as pattern) >= 1 on the case-folded full alphabet and on the reduced "
         "alphabet used for guide-tree distances (nucleotide: U=T, IUPAC codes=N; protein: the 13 published classes LM, IV, KR, "
         "EQZ, AST, NDB, FY, C, G, H, P, W, X); cases failing it are discarded and counted. Oracle: all copies of a sequence have "
         "byte-identical rows. Non-trivial = >= 3 distinct sequences and the copies' rows contain a gap.")
 ASSUMPTIONS = ["premise evaluated on the first 1024 symbols of the pattern, as the distance kernel does"]
-BUDGET = {"quick": dict(examples=400, workers=12, seconds=75), "thorough": dict(examples=1200, workers=16, seconds=600)}
+BUDGET = {"quick": dict(examples=220, workers=12, seconds=75), "thorough": dict(examples=1200, workers=16, seconds=600)}
 
 _PROT_CLASS = {}
 for grp in ["LM", "IV", "KR", "EQZ", "AST", "NDB", "FY", "C", "G", "H", "P", "W"]:
@@ -41,8 +41,16 @@ def contained(a, b, red):
 @st.composite
 def cases(draw, tier):
     k, alpha = draw(gen.alphabets())
-    shape = draw(st.sampled_from(["family", "family", "unrelated"]))
+    shape = draw(st.sampled_from(["family", "family", "unrelated", "boundary"]))
     maxn = 30 if tier == "quick" else 90
+    if shape == "boundary":
+        # guide-tree distances at the edges of small integer types: two shorter sequences whose semi-global distance to the
+        # duplicated sequence is exactly 255 / 256 / 257 (built in check() from these parameters by a pure function)
+        return {"boundary": {"seed": draw(st.integers(0, 2 ** 32 - 1)), "kind": k, "targets": [draw(st.sampled_from([255, 256, 256, 257])),
+                                                                                              draw(st.sampled_from([255, 256, 256, 257]))],
+                             "la": draw(st.integers(540, 700)), "extra": draw(st.integers(0, 3))},
+                "seqs": None, "cfg": {"type": draw(gen.types_for(k)), "threads": draw(gen.threads), "gpo": -1.0, "gpe": -1.0, "tgpe": -1.0},
+                "entry": draw(st.sampled_from(["arr", "file"])), "shape": shape}
     if shape == "family":
         n = draw(st.integers(1, maxn))
         L = draw(st.integers(4, 120))
@@ -71,7 +79,46 @@ def strategy(tier):
     return cases(tier)
 
 
+def build_boundary(b):
+    """A (duplicated) + two shorter sequences at exact reduced-alphabet Sellers distance b['targets'] + ordinary relatives."""
+    from vlib import dporacle
+    rnd = random.Random(b["seed"])
+    alpha = gen.NUC if b["kind"] == "dna" else gen.AA
+    red = reduce_dna if b["kind"] == "dna" else reduce_protein
+    A = "".join(rnd.choice(alpha) for _ in range(b["la"]))
+    out = []
+    for tgt in b["targets"]:
+        L = rnd.randint(tgt + 120, min(b["la"] - 20, tgt + 230))
+        off = rnd.randint(0, b["la"] - L)
+        c = list(A[off:off + L])
+        order = list(range(L))
+        rnd.shuffle(order)
+        d = 0
+        for pos in order:
+            if d >= tgt:
+                break
+            old = c[pos]
+            choices = [x for x in alpha if red(x) != red(old)]
+            c[pos] = rnd.choice(choices)
+            nd = dporacle.sellers(red(A), red("".join(c)))
+            if nd > tgt:
+                c[pos] = old
+            else:
+                d = nd
+        if d != tgt:
+            return None
+        out.append("".join(c))
+    rel = gen.expand_family(rnd.randrange(2 ** 32), alpha, b["extra"], b["la"] // 2, 0.2, 0.03, 0.2) if b["extra"] else []
+    seqs = [A, out[0], A, out[1]] + rel
+    return seqs
+
+
 def check(case):
+    if case.get("boundary"):
+        built = build_boundary(case["boundary"])
+        if built is None:
+            return engine.discard("boundary construction did not reach the target distance")
+        case = dict(case, seqs=built)
     seqs, cfg = case["seqs"], case["cfg"]
     if not (2 <= len(seqs) <= 99):
         return engine.discard("size outside 2..99")
